@@ -113,11 +113,54 @@ def directed_relay(cfg, res):
               s.apply(ev, i)
             res.count('directed_sequences')
             relay_oracle(s, dict(v, nd=nd, directed=True), cfg, res)
-            for sig, msg in s.violations[:2]:
+            for sig, msg in [x for x in s.violations if x[0].startswith('relay/')][:2]:
               if sig.startswith('relay/'):
                 res.violation(sig + '/dyn', '%s [maxq=%d low=%s %r nd=%d] events=%r' % (msg, cfg['maxq'], cfg['low'], v, nd, s.log),
                               dict(cfg=cfg, variant=v, events=s.log))
             res.case(repr((nd, retries, batch, victim, tail)), nontrivial=s.was_paused)
+
+
+def directed_pool(cfg, res):
+  """Directed family: DESTINATION_POOL_REPLICAS - three connections to one host:port share the load (the shortest queue takes
+  the next datapoint).  One member stalls (its transport pushes back) until its queue reports full and the receivers pause,
+  the others keep draining; then the stalled connection is lost.  Every tail of <= 2 events, then quiescence."""
+  from vlib import relayharness as rh
+  import checks.c07_queues as c7
+  from carbon.conf import settings
+
+  class NS(object):
+    pass
+  ns = NS()
+  ns.settings = settings
+  pool = [('127.0.0.1', 2004, 'a'), ('127.0.0.1', 2004, 'b'), ('127.0.0.1', 2004, 'c')]
+  tails = [()] + [(e,) for e in ('arrive', 'adv_defer', 'adv_next', 'conn_made', 'conn_failed', 'resume')]
+  tails += [(a, b) for a in ('adv_defer', 'adv_next', 'conn_failed', 'conn_made') for b in ('arrive', 'adv_defer', 'conn_made')]
+  try:
+    for npool in (2, 3):
+      for protocol in ('pickle', 'line'):
+        for batch in (1, 3, 500):
+          for victim in range(npool):
+            for drain_first in (0, 2, 5):
+              for tail in tails:
+                v = dict(batch=batch, dyn=False, retries=5, protocol=protocol)
+                ns.transport_hw = c7.apply_variant(settings, v, 'consistent-hashing', 1)
+                settings['DESTINATION_POOL_REPLICAS'] = False
+                s = rh.Seq(ns, pool[:npool], receivers=2)
+                # (switched on once the manager exists: at start-up it would install a DNS resolver into the reactor)
+                settings['DESTINATION_POOL_REPLICAS'] = True
+                evs = [('conn_made', i) for i in range(npool)] + [('pause', victim), ('fill', 0)] + [('adv_defer', 0)] * drain_first
+                evs += [('conn_lost', victim)] + [(e, victim) for e in tail]
+                for ev, i in evs:
+                  s.apply(ev, i)
+                res.count('directed_pool_sequences')
+                relay_oracle(s, dict(v, nd=npool, directed=True, pool=True), cfg, res)
+                for sig, msg in [x for x in s.violations if x[0].startswith('relay/')][:2]:
+                  if sig.startswith('relay/'):
+                    res.violation(sig + '/pool', '%s [maxq=%d low=%s %r pool of %d] events=%r' % (msg, cfg['maxq'], cfg['low'], v, npool, s.log),
+                                  dict(cfg=cfg, variant=v, events=s.log))
+                res.case(repr(('pool', npool, protocol, batch, victim, drain_first, tail)), nontrivial=s.was_paused)
+  finally:
+    settings['DESTINATION_POOL_REPLICAS'] = False
 
 
 def directed_quality_reset(cfg, res):
@@ -155,7 +198,7 @@ def directed_quality_reset(cfg, res):
             res.count('quality_resets_in_directed_sequences', s.counters.get('quality_resets_observed', 0))
             res.count('closes_taking_effect_later', s.counters.get('closes_taking_effect_later', 0))
             relay_oracle(s, dict(v, nd=1, directed=True), cfg, res)
-            for sig, msg in s.violations[:2]:
+            for sig, msg in [x for x in s.violations if x[0].startswith('relay/')][:2]:
               if sig.startswith('relay/'):
                 res.violation(sig + '/quality-reset', '%s [maxq=%d low=%s %r] events=%r' % (msg, cfg['maxq'], cfg['low'], v, s.log),
                               dict(cfg=cfg, variant=v, events=s.log))
@@ -287,6 +330,7 @@ def run_config(cfg, res):
   directed_relay(cfg, res)
   if cfg['fc']:
     directed_quality_reset(cfg, res)
+    directed_pool(cfg, res)
   # C07's own oracle also ran; its findings are C07's, not C09's: keep only relay/* signatures
   res.violations = [v for v in res.violations if v['sig'].startswith('relay/')]
 
